@@ -23,6 +23,17 @@ CHECKS.update({
    text="All 256 stream_type codes are checked through the lookup, the elementary-stream constructor and a decoded PMT; every descriptor decoder is run on all 256 tags x exhaustive/gridded well-formed bodies (all 64x256 ISO-639 bodies, all 128x32 Dolby Vision profile/level pairs, all TTML purpose bytes, bitrate grid or all 2^21 values) both directly and through a decoded PMT.",
    note="Decoders whose tag equals the descriptor tag are only called on bodies well-formed for that tag (malformed bodies belong to C05).", design="3/C20"),
 })
+CHECKS.update({
+ "C03": dict(engine="bfs", technique="explicit-state BFS over setter-call histories on the live packet with canonical-state (188 bytes) dedup, every transition compared with an independent ISO 13818-1 serialiser",
+   text="From the empty and four pre-populated adaptation fields of every adaptation_field_length 1..183, all histories over a 42-call alphabet are explored breadth-first (depth 2-3 on all lengths, depth 4 / state-capped closure on 19 boundary lengths); after every call the 188 bytes must equal header || reference serialisation of the logical model || payload, every getter of both APIs must equal the model, and refused calls must leave the packet untouched.",
+   note="Value of a freshly enabled fixed-width field is adopted from the implementation (unspecified by the statement); method-style getters of private data/extension may return the data with or without the length prefix (both conventions accepted).", design="3/C03"),
+ "C16": dict(engine="enum", technique="exhaustive enumeration of all byte strings over a header-class alphabet x reader buffer sizes x fragmentation styles on the real Sync vs. a linear reference scan",
+   text="Every string up to length 8 (10 thorough) over {0x47,0x00,0x10,0x05,0xFF}, alone and followed by 188 more bytes, plus every (byte1,byte2,byte3) header value, is fed to Sync through four bufio sizes and four reader styles and a deviation-bounded scripted-reader tree; offset, error and the reader's remaining bytes are compared with a linear scan written from the statement.",
+   note="Streams are finite and short; bufio.Reader is the only PeekScanner exercised.", design="3/C16"),
+ "C18": dict(engine="tree", technique="deviation-bounded exhaustive DFS over scripted reader fragmentation / EOF style / injected reader and writer faults, plus full enumeration of slice lengths and uniform chunk sizes, on the real adapters",
+   text="Write: every slice length 0..565 through the four adapter constructors with a failing packet writer at every index. ReadFrom: for each stream shape (0..3 packets + partial tail) every uniform chunk size 1..377 and every scripted-reader execution with <=4 (quick) / <=5 (thorough) deviations from the plain answer (short read sizes, EOF with data, injected error, failing writer) is executed; delivered packets (copied at call time), returned count and error are compared with the stream model.",
+   note="A reader that returns (0,nil) forever is outside the model; count on a failed Write and delivery of a packet completed by bytes returned together with a non-EOF error are not asserted.", design="3/C18"),
+})
 NOT_APPLICABLE = {}
 def main():
     props=[json.loads(l)['id'] for l in open('/verif/properties.jsonl')]
